@@ -62,9 +62,24 @@ fn gen(rng: &mut Rng, _sub: u64) -> Workload {
     let mut events = vec![Ev::Open { doc: 0 }];
     let n = rng.range(3, 12);
     let mut version = 1;
-    for _ in 0..n {
+    let mut saved = model.clone();
+    let reopen_at = if rng.chance(1, 4) { Some(rng.below(n)) } else { None };
+    for step in 0..n {
+        if reopen_at == Some(step) {
+            // close the document (after saving it, or not) and open it again: it then shows its saved state
+            if rng.chance(1, 2) {
+                events.push(Ev::Save { doc: 0 });
+                saved = model.clone();
+            }
+            events.push(Ev::Close { doc: 0 });
+            events.push(Ev::Open { doc: 0 });
+            model = saved.clone();
+        }
         match rng.below(12) {
-            0 => events.push(Ev::Save { doc: 0 }),
+            0 => {
+                events.push(Ev::Save { doc: 0 });
+                saved = model.clone();
+            }
             1 => events.push(Ev::Req { doc: 0, kind: "documentSymbol".into() }),
             _ => {
                 version += 1;
@@ -113,7 +128,7 @@ fn gen(rng: &mut Rng, _sub: u64) -> Workload {
 fn opts(rng: &mut Rng, _sub: u64) -> SimOpts {
     // fault-free configuration (handlers one at a time, I/O at once) and interleaving configuration are separate
     let interleave = rng.chance(1, 2);
-    SimOpts { io_enabled: interleave, step_cap: 30_000, max_in_flight: if interleave { 4 } else { 1 }, gate_first: !rng.chance(1, 8), observe_all: false, reference: false }
+    SimOpts { io_enabled: interleave, step_cap: 30_000, max_in_flight: if interleave { 4 } else { 1 }, gate_first: rng.chance(1, 2), observe_all: false, reference: false }
 }
 
 fn show(s: &str) -> String {
@@ -138,10 +153,10 @@ fn judge(wl: &Workload, r: &SimResult) -> Option<(String, String)> {
         match server {
             None => return Some(("S".into(), format!("after {} the server has no copy of the document at all", r.names[*i]))),
             Some(s) if s != want => {
-                // the server may legitimately be behind if an *earlier* change is still in flight? No: documents are
-                // updated synchronously in the handler's first poll, in arrival order, so after handler i completes
-                // the server copy must contain changes 0..=i and may contain later ones that were already polled.
-                let later_ok = m.after.range((i + 1)..).any(|(_, t)| t == s);
+                // Documents are updated synchronously in each handler's first poll, in arrival order, so when
+                // handler i completes the server copy contains messages 0..=i; it may also contain later messages
+                // (changes, a re-open) whose handlers were already polled.
+                let later_ok = m.snap.iter().skip(i + 1).any(|docs| &docs[0] == s);
                 if !later_ok {
                     return Some(("S".into(), format!("after {} ({}) the server's copy differs from the client's: server {} / client {}", r.names[*i], if invalid { "an invalid change, which must alter nothing" } else { "a valid change" }, show(s), show(want))));
                 }
@@ -207,6 +222,9 @@ fn sig(wl: &Workload, _r: &SimResult) -> Vec<String> {
     if invalid {
         s.push("change:invalid-range".into());
     }
+    if wl.events.iter().filter(|e| matches!(e, Ev::Open { .. })).count() >= 2 {
+        s.push("reopened-after-close".into());
+    }
     s.sort();
     s.dedup();
     s
@@ -235,8 +253,8 @@ fn probes(wl: &Workload, r: &SimResult) -> Vec<String> {
     p
 }
 
-fn droppable(e: &Ev) -> bool {
-    !matches!(e, Ev::Open { .. })
+fn droppable(_e: &Ev) -> bool {
+    true // `well_formed` keeps the history sensible (first message is the didOpen, nothing is sent to a closed document)
 }
 
 /// Every position of every ranged change is an exact position of the client model at that point (existing
@@ -244,7 +262,30 @@ fn droppable(e: &Ev) -> bool {
 /// its start after its end, and only as the last change of its notification.
 fn well_formed(wl: &Workload) -> bool {
     let mut d = Doc::new(&wl.files[0].1);
+    let mut saved = d.clone();
+    let mut open = false;
     for e in &wl.events {
+        match e {
+            Ev::Save { .. } => saved = d.clone(),
+            Ev::Close { .. } => {
+                if !open {
+                    return false;
+                }
+                open = false;
+            }
+            Ev::Open { .. } => {
+                if !open {
+                    d = saved.clone();
+                    open = true;
+                }
+            }
+            Ev::Change { .. } | Ev::Req { .. } => {
+                if !open {
+                    return false; // the client only edits / queries documents it has open
+                }
+            }
+            _ => {}
+        }
         if let Ev::Change { changes, .. } = e {
             for (k, c) in changes.iter().enumerate() {
                 if let Some((sl, sc, el, ec)) = c.range {
